@@ -7322,9 +7322,15 @@ class Parser:
                 # mypyc compiled functions don't have __code__, so we use
                 # try/except to check if func_builder accepts 'dialect'.
                 try:
-                    func = func_builder(args)
-                except TypeError:
-                    func = func_builder(args, dialect=self.dialect)
+                    try:
+                        func = func_builder(args)
+                    except TypeError:
+                        func = func_builder(args, dialect=self.dialect)
+                except (AttributeError, IndexError, KeyError, TypeError, ValueError):
+                    # Builders index / unpack their arguments, so a malformed argument list
+                    # (too few arguments, an empty argument) must be reported, not leaked
+                    self.raise_error(f"Invalid arguments for function {this}")
+                    func = exp.Anonymous(this=this, expressions=args)
 
                 func = self.validate_expression(func, args)
                 if self.dialect.PRESERVE_ORIGINAL_NAMES:
